@@ -143,57 +143,22 @@ class Interval(Duration, Generic[_T]):
     def __init__(self, start: _T, end: _T, absolute: bool = False) -> None:
         super().__init__()
 
-        _start: _T
         if not isinstance(start, pendulum.Date):
             if isinstance(start, datetime):
                 start = cast(_T, pendulum.instance(start))
             else:
                 start = cast(_T, pendulum.date(start.year, start.month, start.day))
 
-            _start = start
-        else:
-            if isinstance(start, pendulum.DateTime):
-                _start = cast(
-                    _T,
-                    datetime(
-                        start.year,
-                        start.month,
-                        start.day,
-                        start.hour,
-                        start.minute,
-                        start.second,
-                        start.microsecond,
-                        tzinfo=start.tzinfo,
-                    ),
-                )
-            else:
-                _start = cast(_T, date(start.year, start.month, start.day))
-
-        _end: _T
         if not isinstance(end, pendulum.Date):
             if isinstance(end, datetime):
                 end = cast(_T, pendulum.instance(end))
             else:
                 end = cast(_T, pendulum.date(end.year, end.month, end.day))
 
-            _end = end
-        else:
-            if isinstance(end, pendulum.DateTime):
-                _end = cast(
-                    _T,
-                    datetime(
-                        end.year,
-                        end.month,
-                        end.day,
-                        end.hour,
-                        end.minute,
-                        end.second,
-                        end.microsecond,
-                        tzinfo=end.tzinfo,
-                    ),
-                )
-            else:
-                _end = cast(_T, date(end.year, end.month, end.day))
+        # precise_diff() works on native values: they keep the fold, which
+        # decides the offset of a repeated wall time
+        _start: _T = self._as_native(start)
+        _end: _T = self._as_native(end)
 
         self._invert = False
         if _is_after(start, end):
@@ -207,6 +172,26 @@ class Interval(Duration, Generic[_T]):
         self._start: _T = start
         self._end: _T = end
         self._delta: PreciseDiff = precise_diff(_start, _end)
+
+    @staticmethod
+    def _as_native(value: _T) -> _T:
+        if isinstance(value, pendulum.DateTime):
+            return cast(
+                _T,
+                datetime(
+                    value.year,
+                    value.month,
+                    value.day,
+                    value.hour,
+                    value.minute,
+                    value.second,
+                    value.microsecond,
+                    tzinfo=value.tzinfo,
+                    fold=value.fold,
+                ),
+            )
+
+        return cast(_T, date(value.year, value.month, value.day))
 
     @property
     def years(self) -> int:
